@@ -517,7 +517,7 @@ def tie_case(ctx, lean, case, ns, note):
         model, X = fit_model(case)
     except Exception as e:  # noqa
         ctx.count('fit-raised:' + type(e).__name__)
-        note('corr:fit-columns', {'case': brief(case), 'real': 'fit raised ' + repr(e)[:200]})
+        note('corr:fit-columns', {'real': 'fit raised ' + repr(e)[:200], 'case': brief(case)})
         return
     unis = list(model.univariates)
     for u in unis:
@@ -559,7 +559,7 @@ def tie_case(ctx, lean, case, ns, note):
         try:
             out, calls = real_sample(model, case, n, first)
         except Exception as e:  # noqa
-            note('corr:schema', {'case': brief(case, n=n), 'real': 'sample raised ' + repr(e)[:300]})
+            note('corr:schema', {'real': 'sample raised ' + repr(e)[:300], 'case': brief(case, n=n)})
             first = False
             continue
         # draw request
@@ -568,8 +568,9 @@ def tie_case(ctx, lean, case, ns, note):
                  and not calls[0]['mean'].any() and bits_equal(calls[0]['cov'], corr)
                  and calls[0]['out'].shape == (n, d) and calls[0]['out'].dtype == np.float64)
         if not okreq:
-            note('corr:draw-request', {'case': brief(case, n=n), 'calls': [
-                {'size': c['size'], 'mean': c['mean'].tolist(), 'out_shape': list(c['out'].shape)} for c in calls]})
+            note('corr:draw-request', {'calls': [
+                {'size': c['size'], 'mean': c['mean'].tolist(), 'out_shape': list(c['out'].shape)} for c in calls][:3],
+                'expected': {'size': n, 'mean': 'zeros(%d)' % d, 'cov': 'model.correlation'}, 'case': brief(case, n=n)})
             first = False
             continue
         draws = calls[0]['out']
